@@ -21,6 +21,7 @@ import itertools
 
 from .. import astutil as A
 from ..alg import FragmentFault, AutoRegion, Interp, Obj, Poly, PyFunc, Undecided, fn, to_poly
+from ..alg import tensorlib_obj as _tensorlib_obj
 from ..objmodel import World
 from ..dep import Deps
 from .. import listnp
@@ -590,7 +591,7 @@ def _build_end_to_end(ctx, rid, reg):
     rec = {"appliers": {}}
     ext = listnp.externals()
     ext.update({
-        "subscribe": lambda a, k: PyFunc(lambda a2, k2: None, "subscriber"), "get_backend": lambda a, k: (Obj("tensorlib"), None),
+        "subscribe": lambda a, k: PyFunc(lambda a2, k2: None, "subscriber"), "get_backend": (lambda tl_: (lambda a, k: (tl_, None)))(_tensorlib_obj()),
         "_finalize_parameters_specs": lambda a, k: (rec.__setitem__("finalize_args", a) or {"REQ": True}),
         "required_parset": lambda a, k: {"required": True},
         "_create_parameters_from_spec": lambda a, k: (Obj("paramobjs"), [], []),
@@ -925,7 +926,7 @@ def pipeline_world(repo, reg, rec):
     nbc = repo.cls(PDF, "_nominal_builder")
     ext = listnp.externals()
     ext.update({
-        "subscribe": lambda a, k: PyFunc(lambda a2, k2: None, "subscriber"), "get_backend": lambda a, k: (Obj("tensorlib"), None),
+        "subscribe": lambda a, k: PyFunc(lambda a2, k2: None, "subscriber"), "get_backend": (lambda tl_: (lambda a, k: (tl_, None)))(_tensorlib_obj()),
         "_finalize_parameters_specs": lambda a, k: (rec.__setitem__("finalize_args", a) or {"REQ": True}),
         "required_parset": lambda a, k: {"required": True},
         "_create_parameters_from_spec": lambda a, k: (Obj("paramobjs"), [], []),
